@@ -21,7 +21,7 @@ TECHNIQUE = 'reference-model monitor (independent DAQmx encoder + byte-level ora
 RULE = ('random DAQmx files from vlib.daqmx.gen_daqmx; non-trivial = >=2 scalers in the file and >=1 value; distinct = '
         '(digital, widths, buffer lengths, per-channel (raw, scaler types/buffers/offsets), per-segment (endian, nchunks, metadata kind))')
 ASSUMPTIONS = ['an acquisition buffer no scaler refers to has zero rows', 'scaled chunk streams are compared with slices of the eager scaled result']
-REQUIRED = ['scalers_decoded', 'windows_compared', 'chunk_streams_compared', 'cuts_checked', 'contract:receiver.append_scaler_data']
+REQUIRED = ['files_with_channel_switched_off', 'scalers_decoded', 'windows_compared', 'chunk_streams_compared', 'cuts_checked', 'contract:receiver.append_scaler_data']
 N = {'quick': 1500, 'thorough': 100000}
 
 
@@ -51,7 +51,7 @@ def shard_teardown(ctx):
 
 def build(case):
     rng = random.Random('c11/%d' % case['s'])
-    f = D.gen_daqmx(rng)
+    f = D.gen_daqmx(rng, allow_drop=True, max_segs=4)
     # make some channels scalable: NI_Number_Of_Scales = ns+1, last scale Linear reading scaler j
     for ch in f.chans:
         ids = sorted(s['id'] for s in ch['scalers'])
@@ -79,6 +79,8 @@ def run_case(case, ctx):
     blob, idx, lay = f.encode()
     ctx.evaluation()
     nscal = sum(len(c['scalers']) for c in f.chans)
+    if any(s['meta'] == 'drop' for s in f.segs):
+        ctx.count('files_with_channel_switched_off')
     if nscal >= 2 and any(s['nchunks'] for s in f.segs):
         ctx.distinct(f.signature())
     ctx.sample({'case': case, 'file': f.describe(), 'bytes': len(blob)}, limit=2)
@@ -93,7 +95,7 @@ def run_case(case, ctx):
     eager_raw, eager_scaled = {}, {}
     for ch in f.chans:
         c = tf['G'][ch['name']]
-        want_n = ch['n'] * sum(s['nchunks'] for s in f.segs)
+        want_n = f.total_len(ch)
         if len(c) != want_n:
             ctx.violation('decode/length', {'chan': ch, 'got': len(c), 'want': want_n, 'file': f.describe()})
         for s in ch['scalers']:
